@@ -57,6 +57,8 @@ type result struct {
 	timeout bool
 	races   []string
 	raceRun bool
+	// planPath is set when the run executed a plan file (regression corpus)
+	planPath string
 }
 
 // raceReports extracts the race detector reports that involve repository code.
@@ -112,7 +114,7 @@ var props = map[string]propCfg{
 	"C02": {Focus: "C02", Arms: []string{"clean"}, Probes: []string{"c02_fresh_compared", "content_checked"}},
 	"C03": {Focus: "C03", Arms: []string{"clean", "faults"}, Probes: []string{"c03_checked", "c03_notimp", "c03_refused", "c03_servfail"}},
 	"C04": {Focus: "C04", Arms: []string{"clean", "clean", "prefetch"}, Probes: []string{"content_checked", "cache_hit_last_quarter"}},
-	"C05": {Focus: "C05", Arms: []string{"clean"}, Rare: []string{"exhaust"}, RareEvery: 2500, Probes: []string{"c05_reply_checked", "c05_wireid_checked", "c05_exhaust_completed", "c05_exhaust_rollover_seen"}},
+	"C05": {Focus: "C05", Arms: []string{"clean"}, Rare: []string{"exhaust"}, RareEvery: 1000, Probes: []string{"c05_reply_checked", "c05_wireid_checked", "c05_exhaust_completed", "c05_exhaust_rollover_seen"}},
 	"C06": {Focus: "C06", Arms: []string{"clean"}, Probes: []string{"c06_query_checked", "c06_reply_checked"}},
 	"C14": {Focus: "C14", Arms: []string{"stale", "faults"}, Probes: []string{"c14_deadline_checked", "c14_liveness_checked", "c14_waiter_on_dead_conn"}},
 	"C20": {Focus: "C20", Arms: []string{"router", "xport", "prefetch"}, Race: true, Probes: []string{"content_checked", "c06_reply_checked"}},
@@ -350,6 +352,7 @@ func main() {
 	evidenceDir := flag.String("evidence", "/verif/evidence", "evidence directory")
 	findingsPath := flag.String("findings", "/verif/known_findings.json", "known findings")
 	replayDir := flag.String("replays", "/verif/replays", "where replay files go")
+	regressDir := flag.String("regress", "/verif/regress", "regression corpus of plans (<prop>-*.json)")
 	detTest := flag.Int("determinism", 0, "run N seeds twice and compare event-log hashes")
 	flag.Parse()
 	binPath = *bin
@@ -413,6 +416,43 @@ func main() {
 		undecided []string
 		next      int
 	)
+	// Regression corpus first: the minimised plans of defects that were found
+	// and repaired (and of seeded changes that were hard to find).  A plan is
+	// an input like any other seed's; it is not an expectation of failure.
+	nRegress := 0
+	if files, _ := filepath.Glob(filepath.Join(*regressDir, *prop+"-*.json")); len(files) > 0 {
+		sort.Strings(files)
+		sem := make(chan struct{}, *workers)
+		var rwg sync.WaitGroup
+		for i, f := range files {
+			rwg.Add(1)
+			sem <- struct{}{}
+			go func(i int, f string) {
+				defer rwg.Done()
+				defer func() { <-sem }()
+				r := runPlanFile(f, 0, fmt.Sprintf("rg%d", i))
+				r.Arm = "regress"
+				r.planPath = f
+				mu.Lock()
+				defer mu.Unlock()
+				nRegress++
+				results = append(results, r)
+				if r.crashed {
+					if v := crashViolation(*prop, r); v != nil {
+						failures = append(failures, failure{r, *v})
+					} else {
+						undecided = append(undecided, fmt.Sprintf("regress %s: %s", f, tail(r.stderr, 1500)))
+					}
+				}
+				for _, v := range r.Violations {
+					if v.Property == *prop {
+						failures = append(failures, failure{r, v})
+					}
+				}
+			}(i, f)
+		}
+		rwg.Wait()
+	}
 	var wg sync.WaitGroup
 	for w := 0; w < *workers; w++ {
 		wg.Add(1)
@@ -436,7 +476,7 @@ func main() {
 					}
 				}
 				var r *result
-				if cfg.Race && *raceShare > 0 && i%*raceShare == 0 {
+				if cfg.Race && *raceShare > 0 && (i/len(cfg.Arms))%*raceShare == 0 { // every arm gets its share of race-detector runs
 					r = runSeedRace(rs, cfg.Focus, arm, fmt.Sprintf("w%d", w))
 				} else {
 					r = runSeed(rs, cfg.Focus, arm, 0, fmt.Sprintf("w%d", w))
@@ -543,7 +583,19 @@ func isFlagSet(name string) bool {
 func report(prop string, cfg propCfg, f failure, dir string, findings []finding) (path string, confirmed, minimised bool) {
 	os.MkdirAll(dir, 0o755)
 	path = filepath.Join(dir, fmt.Sprintf("%s-%d.json", prop, f.res.Seed))
-	p, err := genPlan(f.res.Seed, f.res.Focus, f.res.Arm)
+	var p *plan.Plan
+	var err error
+	if f.res.planPath != "" {
+		// a plan of the regression corpus
+		path = filepath.Join(dir, fmt.Sprintf("%s-%s", prop, strings.TrimPrefix(filepath.Base(f.res.planPath), prop+"-")))
+		var b []byte
+		if b, err = os.ReadFile(f.res.planPath); err == nil {
+			p = new(plan.Plan)
+			err = json.Unmarshal(b, p)
+		}
+	} else {
+		p, err = genPlan(f.res.Seed, f.res.Focus, f.res.Arm)
+	}
 	if err != nil {
 		os.WriteFile(path, []byte(fmt.Sprintf(`{"error":%q}`, err.Error())), 0o644)
 		return path, false, false
